@@ -19,6 +19,7 @@ import (
 	ptypes "github.com/elys-network/elys/x/parameter/types"
 	perptypes "github.com/elys-network/elys/x/perpetual/types"
 	sstypes "github.com/elys-network/elys/x/stablestake/types"
+	tiertypes "github.com/elys-network/elys/x/tier/types"
 	tstypes "github.com/elys-network/elys/x/tradeshield/types"
 )
 
@@ -637,6 +638,39 @@ func genLPClosePositions(g *G) *Op {
 	return &Op{Signer: g.W.Bot, Kind: "leveragelp.close_positions", Msg: msg}
 }
 
+// genFeedExternalLiquidity: the price feeder reports the depth of external markets for an oracle pool's
+// assets; the pool then scales its slippage by the resulting external-liquidity ratio (>= 1).
+func genFeedExternalLiquidity(g *G) *Op {
+	p := g.oraclePool()
+	if p == nil {
+		return nil
+	}
+	f := g.W.Feeder
+	var info []ammtypes.AssetAmountDepth
+	depths := []string{"0.001", "0.01", "0.02", "0.1", "0.5", "0.99", "1", "1.5"}
+	for _, a := range p.PoolAssets {
+		if g.Int("el/skip", 0, 3) == 0 {
+			continue
+		}
+		mult := []int64{0, 1, 2, 10, 1000}[g.Pick("el/mult", 5)]
+		amt := a.Token.Amount.ToLegacyDec().MulInt64(mult).QuoInt64(2)
+		info = append(info, ammtypes.AssetAmountDepth{Asset: displayOf(a.Token.Denom), Amount: amt, Depth: sdkmath.LegacyMustNewDecFromStr(depths[g.Pick("el/depth", len(depths))])})
+	}
+	signer := f
+	if g.Int("el/nonfeeder", 0, 9) == 0 {
+		signer = g.User()
+	}
+	return &Op{Signer: signer, Kind: "amm.feed_external_liquidity", Msg: &ammtypes.MsgFeedMultipleExternalLiquidity{Sender: signer.Addr.String(),
+		Liquidity: []ammtypes.ExternalLiquidity{{PoolId: p.PoolId, AmountDepthInfo: info}}}}
+}
+
+// genSetPortfolio: anyone may ask the tier module to (re)compute an account's portfolio; the resulting
+// membership tier gives that account a discount on swap fees from then on.
+func genSetPortfolio(g *G) *Op {
+	u, target := g.User(), g.User()
+	return &Op{Signer: u, Kind: "tier.set_portfolio", Msg: &tiertypes.MsgSetPortfolio{Creator: u.Addr.String(), User: target.Addr.String()}}
+}
+
 // genSendToBurn: an explicit burn – the owner sends tokens to the zero address, from where the burner module
 // destroys them at the end of its epoch (only denoms that have bank metadata; others just stay there).
 func genSendToBurn(g *G) *Op {
@@ -1249,7 +1283,7 @@ func genExecuteOrders(g *G) *Op {
 var AllOps = map[string]func(*G) *Op{
 	"amm.swap_in": genSwapIn, "amm.swap_out": genSwapOut, "amm.swap_in_2hop": genSwapIn2, "amm.swap_out_2hop": genSwapOut2,
 	"amm.swap_by_denom": genSwapByDenom, "amm.join": genJoin, "amm.exit": genExit,
-	"bank.send_to_pool": genSendToPool, "bank.send": genSendUser, "bank.send_to_burn": genSendToBurn,
+	"bank.send_to_pool": genSendToPool, "bank.send": genSendUser, "bank.send_to_burn": genSendToBurn, "amm.feed_external_liquidity": genFeedExternalLiquidity, "tier.set_portfolio": genSetPortfolio,
 	"stablestake.bond": genBond, "stablestake.unbond": genUnbond,
 	"leveragelp.open": genLPOpen, "leveragelp.close": genLPClose, "leveragelp.update_stop_loss": genLPUpdateStopLoss,
 	"leveragelp.claim_rewards": genLPClaim, "leveragelp.close_positions": genLPClosePositions,
